@@ -16,7 +16,7 @@ from .facts import AnalysisBroken, Facts
 
 VERIF = os.path.dirname(os.path.dirname(os.path.dirname(os.path.abspath(__file__))))
 COPY_DIRS = ['lib', 'cli', 'frontend', 'externals', 'platforms', 'addons', 'htmlreport', 'cfg']
-COPY_FILES = ['cppcheck-errors.rng']
+COPY_FILES = ['cppcheck-errors.rng', 'tools/matchcompiler.py']
 
 
 def load_known():
@@ -199,6 +199,7 @@ def scratch_copy(root='/repo'):
             shutil.copytree(src, os.path.join(d, sub), symlinks=True)
     for f in COPY_FILES:
         if os.path.exists(os.path.join(root, f)):
+            os.makedirs(os.path.dirname(os.path.join(d, f)), exist_ok=True)
             shutil.copy(os.path.join(root, f), os.path.join(d, f))
     return d
 
